@@ -227,3 +227,9 @@ func init() {
 func init() {
 	prop("C11", "C11-R7")
 }
+
+func init() {
+	prop("C06", "C06-R4")
+	prop("C11", "C06-R4")
+	prop("C04", "C06-R4")
+}
